@@ -178,7 +178,7 @@ pub fn all() -> Vec<Spec> {
             id: "C15",
             run: c15::run,
             level: "fault_enumeration",
-            rule: "the full configuration matrix is enumerated on every run: client roots {right CA, other CA, none} x domain {configured matching, configured non-matching, from URI matching, from URI non-matching} x server ALPN {h2 (tonic's own Server::tls_config), none, http/1.1 (harness rustls acceptor feeding tonic's serve_with_incoming)} x assume_http2 x server client-auth {none, required, optional} x client identity {none, valid, issued by another CA} x (tonic server only) ignore_client_order = 864 real rustls handshakes over the in-memory pipe (thorough: x3 with fragmenting pipes), plus https-URI-without-TLS-config cases. Oracle = decision table from the property text (success iff chain AND name AND (h2 negotiated OR assume_http2) AND client-auth rule); on expected failure the handler counter stays 0; the client's first bytes are a TLS handshake record and the plaintext preface never appears; Request::peer_certs() is Some(1) exactly when a client chain was verified. Fingerprint = the matrix cell + repetition. Non-trivial = every cell.",
+            rule: "the full configuration matrix is enumerated on every run: client roots {right CA, other CA, none} x domain {configured matching, configured non-matching, from URI matching, from URI non-matching} x server ALPN {h2 (tonic's own Server::tls_config), none, http/1.1 (harness rustls acceptor feeding tonic's serve_with_incoming)} x assume_http2 x server client-auth {none, required, optional} x client identity {none, valid, issued by another CA} x (tonic server only) ignore_client_order = 864 real rustls handshakes over the in-memory pipe (thorough: x12 with fragmenting pipes), plus https-URI-without-TLS-config cases. Oracle = decision table from the property text (success iff chain AND name AND (h2 negotiated OR assume_http2) AND client-auth rule); on expected failure the handler counter stays 0; the client's first bytes are a TLS handshake record and the plaintext preface never appears; Request::peer_certs() is Some(1) exactly when a client chain was verified. Fingerprint = the matrix cell + repetition. Non-trivial = every cell.",
             exhaustive: true,
             assumptions: COMMON_ASSUMPTIONS,
         },
